@@ -26,8 +26,9 @@ type c05Outcome struct {
 	OK     bool   `json:"ok"`
 	MsgLen int    `json:"msg_len"`
 	MsgCls string `json:"msg_cls"`
-	Err    bool   `json:"err"`
-	msg    string
+	Err     bool   `json:"err"`
+	DelayMS int    `json:"callback_ms,omitempty"`
+	msg     string
 }
 
 type c05Conn struct {
@@ -136,6 +137,38 @@ func TestC05Server(t *testing.T) {
 		for i := 0; i < nconn; i++ {
 			conns = append(conns, genC05Conn(t, fmt.Sprintf("c%d-%d-%d|", os.Getpid(), caseCounter, i)))
 		}
+		runC05Case(t, conns)
+	})
+}
+
+// TestC05SlowTiming: the same oracle with write pauses and callback durations of seconds (all connections of the case run
+// concurrently, so the case costs its slowest connection): no timing of the request or of the callback may cost the reply.
+func TestC05SlowTiming(t *testing.T) {
+	rapid.Check(t, func(t *rapid.T) {
+		caseCounter++
+		var conns []c05Conn
+		for i := 0; i < 12; i++ {
+			c := genC05Conn(t, fmt.Sprintf("s%d-%d-%d|", os.Getpid(), caseCounter, i))
+			if len(c.Chunks) == 0 || len(c.Chunks) > 4 {
+				c.Chunks = []int{rapid.IntRange(1, 10).Draw(t, "c1"), rapid.IntRange(1, 300).Draw(t, "c2")}
+			}
+			c.PauseUS = nil
+			for range c.Chunks {
+				c.PauseUS = append(c.PauseUS, 1000*rapid.SampledFrom([]int{0, 200, 1000, 2000, 3500}).Draw(t, "pause_ms"))
+			}
+			c.Out.DelayMS = rapid.SampledFrom([]int{0, 0, 500, 1500, 3500, 5000}).Draw(t, "cb_ms")
+			if c.End == "close" {
+				c.End = "half-close"
+			}
+			conns = append(conns, c)
+		}
+		vlib.Class("slow-timing-case")
+		runC05Case(t, conns)
+	})
+}
+
+func runC05Case(t *rapid.T, conns []c05Conn) {
+	{
 		dir, err := os.MkdirTemp("", "c05-")
 		if err != nil {
 			t.Fatalf("VERIF-INFRA %v", err)
@@ -162,6 +195,9 @@ func TestC05Server(t *testing.T) {
 			mu.Unlock()
 			if !known {
 				return false, "unexpected", nil
+			}
+			if o.DelayMS > 0 {
+				time.Sleep(time.Duration(o.DelayMS) * time.Millisecond)
 			}
 			if o.Err {
 				return o.OK, o.msg, errors.New("backend failure: " + o.msg)
@@ -313,7 +349,7 @@ func TestC05Server(t *testing.T) {
 			}
 		}
 		vlib.Sample(map[string]any{"connections": conns})
-	})
+	}
 }
 
 // earlyError: the stream contains an error the decoder detects without needing more input
